@@ -23,6 +23,13 @@ func c10Cfg() *DeclCfg {
 
 func c10Run(c *Ctx) {
 	d := GenDecl(c.Sub("d"), c10Cfg())
+	if c.K%13 == 4 {
+		// help (or a man page) written before the parse must not disturb the binding order
+		hc := c10Cfg()
+		hc.PDesc = 50
+		histCase(c, GenDecl(c.Sub("dh"), hc), []string{"none"}, []string{"help"})
+		return
+	}
 	b := d.Build()
 	if b.Err != nil {
 		c.Violate("setup-error", "generated declaration rejected: %v", b.Err)
